@@ -452,6 +452,7 @@ var vkStrings = []string{"", "k", "key-1", "projects/p/instances/i/databases/d/s
 type vkGen struct {
 	g      *vkRng
 	nilPct int
+	big    int // > 0: the next slice generated gets this many elements (one long repeated field per round)
 }
 
 func (c *vkGen) fieldNames(n int) []string {
@@ -625,6 +626,9 @@ func (c *vkGen) value(t reflect.Type, depth int) reflect.Value {
 			n = 2
 		default:
 			n = 3
+		}
+		if c.big > 0 && n > 0 {
+			n, c.big = c.big, 0
 		}
 		sl := reflect.MakeSlice(t, n, n)
 		for i := 0; i < n; i++ {
@@ -1488,6 +1492,9 @@ func (r *vkRunner) runHistFile(path string) error {
 func (r *vkRunner) genRound(g *vkRng) []vkCase {
 	var out []vkCase
 	c := &vkGen{g: g, nilPct: []int{0, 5, 15, 15, 30, 50}[g.intn(6)]}
+	if g.intn(40) == 0 {
+		c.big = []int{17, 33, 65, 130}[g.intn(4)]
+	}
 	// fixture round?
 	if g.pct(22) {
 		k := g.intn(len(vkFixtures) + len(vkTwinFixtures)/2)
